@@ -219,3 +219,60 @@ func globalErrNonNil(g *ssa.Global) bool {
 	}
 	return n == 1 && good
 }
+
+// retVals: the values a Return yields. In a function with defers go/ssa spills every `return a, b` into the named result
+// variables, runs the deferred calls and returns loads of those variables; when the result variable is only stored and
+// loaded (no closure or call can change it), the load is resolved to the value stored last on the way to the Return.
+func retVals(ret *ssa.Return) []ssa.Value {
+	out := make([]ssa.Value, len(ret.Results))
+	for i, rv := range ret.Results {
+		out[i] = rv
+		ld, ok := rv.(*ssa.UnOp)
+		if !ok || ld.Op != token.MUL {
+			continue
+		}
+		al, ok := ld.X.(*ssa.Alloc)
+		if !ok || al.Referrers() == nil {
+			continue
+		}
+		private := true
+		for _, ref := range *al.Referrers() {
+			switch r := ref.(type) {
+			case *ssa.Store:
+				if r.Addr != ssa.Value(al) {
+					private = false
+				}
+			case *ssa.UnOp:
+			case *ssa.DebugRef:
+			default:
+				private = false
+			}
+		}
+		if !private {
+			continue
+		}
+		b := ld.Block()
+		idx := -1
+		for k, in := range b.Instrs {
+			if in == ssa.Instruction(ld) {
+				idx = k
+			}
+		}
+		for hops := 0; hops < 8 && b != nil; hops++ {
+			found := false
+			for k := idx - 1; k >= 0; k-- {
+				if st, ok := b.Instrs[k].(*ssa.Store); ok && st.Addr == ssa.Value(al) {
+					out[i] = st.Val
+					found = true
+					break
+				}
+			}
+			if found || len(b.Preds) != 1 {
+				break
+			}
+			b = b.Preds[0]
+			idx = len(b.Instrs)
+		}
+	}
+	return out
+}
